@@ -24,6 +24,7 @@ ENCODED = [
     "tensorly.decomposition._tucker.non_negative_tucker",
     "tensorly.decomposition._tucker.non_negative_tucker_hals",
     "tensorly.decomposition._parafac2._BroThesisLineSearch.line_step",
+    "tensorly.decomposition._tr_als.tensor_ring_als",
     "tensorly.decomposition._cp.parafac",
     "tensorly.decomposition._cp.error_calc",
     "tensorly.decomposition._cp.initialize_cp",
@@ -123,6 +124,9 @@ def configs(tier):
                 if alg == "nn_tucker" and R == 2:
                     continue  # nested clip terms of the multiplicative core update at rank 2 exceed the budget
                 add("other", alg=alg, shape=shp, R=R, opt=opt, K=2, mode="merge")
+    for shp, rank in [((2, 2, 2), [1, 2, 1, 1]), ((2, 2, 2), [2, 1, 2, 2]), ((2, 3, 2), [1, 1, 2, 1])] + ([] if q else [((2, 2, 2, 2), [1, 2, 1, 2, 1])]):
+        for ls in ("lstsq", "normal_eq"):
+            add("tr_als", shape=shp, rank=rank, ls=ls, K=2)
     add("parafac2", rows=(2, 2), J=2, R=1, opt="linesearch", K=7, mode="fork")
     add("parafac", shape=(2, 2, 2), R=1, opt="linesearch", K=8, mode="fork")
     add("parafac", shape=(2, 2), R=2, opt="linesearch_normalize", K=8, mode="fork")
@@ -141,6 +145,8 @@ def harness(E, cfg):
         h_parafac2(E, cfg)
     elif fam == "other":
         h_other(E, cfg)
+    elif fam == "tr_als":
+        h_tr_als(E, cfg)
     else:
         raise KeyError(fam)
 
@@ -634,3 +640,29 @@ def _addends(t):
         if k == z3.Z3_OP_UMINUS:
             return [-a for a in _addends(t.children()[0])]
     return [t]
+
+
+def h_tr_als(E, cfg):
+    """tensor_ring_als reports the error from the last least-squares residual: it must be the relative error of the iterate handed to the callback"""
+    from vt import backend
+    from tensorly.decomposition import tensor_ring_als
+    from props.c03 import d_tr
+
+    shp, rank, ls, K = cfg["shape"], cfg["rank"], cfg["ls"], cfg["K"]
+    if E.symbolic:
+        backend.configure(solve="havoc", lstsq="havoc")
+    X = E.real("X", shp)
+    E.assume(E.Or([E.nonzero(x) for x in np.asarray(X, dtype=object).ravel()]))
+    items = []
+
+    def cb(tr, err):
+        items.append(([np.array(c) for c in tr], err))
+
+    res = tensor_ring_als(np.array(X), list(rank), ls_solve=ls, n_iter_max=K, tol=0, random_state=9, callback=cb)
+    E.prove("callbacks", len(items) == K + 1)
+    for j, (cores, err) in enumerate(items):
+        M = d_tr([np.asarray(c, dtype=object if E.symbolic else float) for c in cores])
+        _err_obligations(E, f"callback{j}", err, X, M)
+    if items:
+        E.prove("returned_decomposition_is_last_iterate", [E.eq_arrays(a, b) for a, b in zip(list(res), items[-1][0])])
+    _finite(E, "sqrt_arguments_rounding_robust")
